@@ -445,7 +445,7 @@ def model_excerpt(model: z3.ModelRef, limit: int = 60) -> Dict[str, str]:
 
 
 def write_replay(pr: PropertyRun, name: str, info: Dict) -> str:
-    d = os.path.join(VERIF, "replay")
+    d = os.path.join(VERIF, "replay") if os.path.abspath(pr.repo) == "/repo" else os.path.join(VERIF, ".scratch", "replay")
     os.makedirs(d, exist_ok=True)
     safe = "".join(c if c.isalnum() or c in "._-" else "_" for c in name)[:120]
     path = os.path.join(d, f"{pr.pid}_{safe}.json")
@@ -462,8 +462,14 @@ def write_evidence_minimal(pid: str, tier: str, seed: int, why: str) -> None:
         json.dump(ev, f, indent=1)
 
 
+def evidence_dir(repo: str) -> str:
+    """Evidence (and replay files) of runs against a scratch copy (seeded changes, mutants) never overwrite the evidence of /repo."""
+    d = os.path.join(VERIF, "evidence") if os.path.abspath(repo) == "/repo" else os.path.join(VERIF, ".scratch", "evidence")
+    os.makedirs(d, exist_ok=True)
+    return d
+
+
 def write_evidence(pr: PropertyRun, mod, results: List["solve.Result"], n_obl: int, n_dis: int, violations, known_hits) -> None:
-    os.makedirs(os.path.join(VERIF, "evidence"), exist_ok=True)
     level = getattr(mod, "LEVEL", "proof")
     if pr.undecided and level == "proof":
         level = "other"       # loss of assurance is recorded, never hidden (DESIGN 6.3)
@@ -507,7 +513,7 @@ def write_evidence(pr: PropertyRun, mod, results: List["solve.Result"], n_obl: i
     cov.update(pr.extra)
     ev = {"property_id": pr.pid, "tier": pr.tier, "seed": pr.seed, "level": level, "coverage": cov, "assumptions": assumptions,
           "wall_s": round(time.time() - pr.t0, 2), "violations": len(violations)}
-    with open(os.path.join(VERIF, "evidence", f"{pr.pid}.json"), "w") as f:
+    with open(os.path.join(evidence_dir(pr.repo), f"{pr.pid}.json"), "w") as f:
         json.dump(ev, f, indent=1, default=str)
 
 
